@@ -576,7 +576,7 @@ func runJob(j *Job, res *Result, wd *watchdog, emit func()) {
 		cfg = cfgByName(j.Cfg)
 	} else {
 		var err error
-		if w, err = buildStoreWorld(); err != nil {
+		if w, err = buildStoreWorld(j.Cfg == "after-rollback"); err != nil {
 			res.viol("C16:cannot-commit-state:store", "building the committed history failed: "+err.Error(), caseRef{World: "store", Phase: j.Phase, Unit: j.Lo, Case: -1})
 			return
 		}
@@ -826,6 +826,7 @@ func plan(quick bool) (jobs []Job, bounds map[string]any) {
 	}
 	// 1. completeness + honest proofs for other keys, every world
 	jobs = append(jobs, chunk("store", "", "sound", allStore, 5, Job{})...)
+	jobs = append(jobs, chunk("store", "after-rollback", "sound", allStore, 9, Job{})...)
 	jobs = append(jobs, chunk("smt", "w3", "sound", smtUnits("w3"), 20, Job{Histories: 2})...)
 	jobs = append(jobs, chunk("smt", "w6", "sound", smtUnits("w6"), 15, Job{Histories: hist})...)
 	jobs = append(jobs, chunk("smt", "w17", "sound", smtUnits("w17"), 40, Job{Histories: 1})...)
